@@ -630,7 +630,12 @@ class BaseSnoteLine(MatchLine):
                 duration=interpret_as_fractional(duration_str),
                 onset_in_beats=interpret_as_float(onset_in_beats_str),
                 offset_in_beats=interpret_as_float(offset_in_beats_str),
-                score_attributes_list=interpret_as_list(score_attributes_list_str),
+                # (an empty attribute list is an empty list, not [""])
+                score_attributes_list=(
+                    interpret_as_list(score_attributes_list_str)
+                    if score_attributes_list_str.strip() != ""
+                    else []
+                ),
             )
 
         else:
